@@ -72,8 +72,25 @@ ConvMism(o) ==
       ids == [i \in 1..Len(VL) |-> VL[i].f[3]]
       other == \E i \in 1..Len(o.layers) : ~Linkish(o.layers[i].k)
       SameRange(p, q) == p.k = q.k /\ p.len = q.len /\ (p.off = q.off \/ p.len = 0) /\ p.num = q.num
-  IN (IF c.vlan_ids # ids THEN {"conv.vlan_ids"} ELSE {})
-     \cup (IF c.vlan # (IF Len(VL) = 0 THEN <<0, -1, -1>> ELSE IF Len(VL) = 1 THEN <<1, ids[1], -1>> ELSE <<2, ids[1], ids[2]>>) THEN {"conv.vlan"} ELSE {})
+  IN (IF c.has \in {1, 2} /\ c.vlan_ids # ids THEN {"conv.vlan_ids"} ELSE {})
+     \cup (IF c.has \in {1, 2} /\ c.vlan # (IF Len(VL) = 0 THEN <<0, -1, -1>> ELSE IF Len(VL) = 1 THEN <<1, ids[1], -1>> ELSE <<2, ids[1], ids[2]>>) THEN {"conv.vlan"} ELSE {})
+     \* IP boundary values (IpSlice, LaxIpSlice) and the header view IpHeadersSlice: functions of the IP layer of the same result
+     \cup (IF c.has \in {4, 5} /\ IL # <<>> THEN
+             LET ip == IL[1]  v4 == ip.k = "ipv4"
+                 src == IF v4 THEN SubSeq(ip.f, 11, 14) ELSE SubSeq(ip.f, 8, 23)
+                 dst == IF v4 THEN SubSeq(ip.f, 15, 18) ELSE SubSeq(ip.f, 24, 39)
+                 hdrs == SelectSeq(o.layers, LAMBDA y : y.k \in {"ipv4", "ipv6", "auth", "exts"})
+                 hl == LET RECURSIVE Sum(_) Sum(q) == IF q = <<>> THEN 0 ELSE Head(q).hlen + Sum(Tail(q)) IN Sum(hdrs)
+             IN (IF ~SameRange(c.ipay, ip.p) THEN {"conv.ip.payload"} ELSE {})
+                \cup (IF c.pin # ip.p.num THEN {"conv.ip.payload_ip_number"} ELSE {})
+                \cup (IF c.frag # ip.p.frag THEN {"conv.ip.is_fragmenting_payload"} ELSE {})
+                \cup (IF c.src # src \/ c.dst # dst THEN {"conv.ip.addresses"} ELSE {})
+                \cup (IF c.has = 4 THEN
+                        (IF c.hv # <<IF v4 THEN 4 ELSE 6, hl, ip.p.num, IF v4 THEN ip.f[9] ELSE ip.f[6], IF v4 THEN 1 ELSE 0, IF v4 THEN 0 ELSE 1>> THEN {"conv.ip.header_view"} ELSE {})
+                        \cup (IF c.hsrc # src \/ c.hdst # dst THEN {"conv.ip.header_view_addresses"} ELSE {})
+                        \cup (IF c.hslice # <<ip.off, ip.hlen>> THEN {"conv.ip.header_view_slice"} ELSE {})      \* slice(): the base header
+                      ELSE {})
+           ELSE {})
      \cup (IF c.has = 1 THEN
              \* ether_payload(): payload of the last link level layer, if it is announced by an ether type
              \* (behind a Linux SLL header the protocol type decides whether there is an ether type at all: not constrained here)
